@@ -94,7 +94,8 @@ class Writer:
                 kind, elt, it, lid = arg.args[0], arg.args[1], arg.args[2], arg.args[3]
                 return [("repeat", lid, F(elt), it)]
             if arg.op == "ref":
-                return [("listjoin", arg)]
+                hist = self._history(arg, depth)
+                return hist if hist is not None else [("listjoin", arg)]
             raise Unsupported("join over %s" % arg.op)
         if t.op == "loopexit" or t.op == "loopvar":
             lid, nm = t.args
@@ -134,6 +135,11 @@ class Writer:
                         if items is not None and len(items) == 1 and is_const(items[0]) and cval(items[0]) == 0:
                             return [("zeros", cnt)]
                 if a.op == "ref":
+                    ho = self._heap_obj(a)
+                    if ho is not None and ho.kind == "bytearray":
+                        hist = self._history(a, depth)
+                        if hist is not None:
+                            return hist
                     items = self._list_items(a)
                     if items is not None:
                         return _merge_consts([("const", bytes([cval(x)])) if is_const(x) and isinstance(cval(x), int) and 0 <= cval(x) < 256 else ("int", 1, x, "big") for x in items])
@@ -148,6 +154,71 @@ class Writer:
         if is_call_named(t, *self.mac_names):
             return [("mac", t)]
         return [("opaque", t)]
+
+    def _heap_obj(self, ref: Term):
+        snaps = getattr(self, "list_snapshots", {})
+        o = snaps.get(ref.args[0])
+        if o is None:
+            o = (getattr(self.ex, "_final_heap", None) or getattr(self.ex, "last_heap", None) or {}).get(ref.args[0])
+        return o
+
+    def _history(self, ref: Term, depth=0) -> Optional[List[tuple]]:
+        """layout of b"".join(L) / bytes(BA) for a list of byte strings / a bytearray that was filled step by step: the heap object keeps
+        (value, context, how) for every append / extend / += ; steps outside loops follow each other, steps inside one loop (relative to
+        the place the container was created) repeat with that loop.  Anything else (conditional steps, insert, pop) is not interpreted."""
+        o = self._heap_obj(ref)
+        if o is None or o.kind not in ("list", "bytearray"):
+            return None
+        F = lambda x: self.flatten(x, depth + 1)
+        is_ba = o.kind == "bytearray"
+
+        def one(val, how):
+            if how in ("append", "init"):
+                if is_ba:
+                    v = unsnap(val)
+                    return [("const", bytes([cval(v)]))] if is_const(v) and isinstance(cval(v), int) and 0 <= cval(v) < 256 else [("int", 1, val, "big")]
+                return F(val)
+            if how == "extend":
+                if is_ba:
+                    return F(val)
+                v_ = unsnap(val)
+                if v_.op == "ref":
+                    o2 = self._heap_obj(v_)
+                    items = list(o2.items) if o2 is not None and o2.exact and o2.kind in ("list", "tuple") else None
+                else:
+                    items = self.ex.iter_items(v_, None)
+                if items is None:
+                    raise Unsupported("list extended by %s" % show(val, 3))
+                out = []
+                for x in items:
+                    out += F(x)
+                return out
+            raise Unsupported("container modified by %s" % (how,))
+
+        if o.exact:
+            out = []
+            for x in o.items:
+                out += one(x, "init")
+            return _merge_consts(out)
+        created = tuple(o.created_ctx)
+        out: List[tuple] = []
+        for val, ctx, how in o.items:
+            extra = [f for f in (tuple(ctx)[len(created):] if tuple(ctx)[:len(created)] == created else tuple(f for f in ctx if f not in created)) if f[0] not in ("call",)]
+            if not extra:
+                out += one(val, how)
+            elif len(extra) == 1 and extra[0][0] == "loop":
+                lid = extra[0][1]
+                lr = self.ex.loops.get(lid)
+                if lr is None:
+                    raise Unsupported("container filled in an unknown loop")
+                body = one(val, how)
+                if out and out[-1][0] == "repeat" and out[-1][1] == lid:
+                    out[-1] = ("repeat", lid, out[-1][2] + body, out[-1][3])
+                else:
+                    out.append(("repeat", lid, body, lr.iter))
+            else:
+                raise Unsupported("container filled under a condition (%s)" % (extra[0][0],))
+        return _merge_consts(out)
 
     def _list_items(self, ref: Term):
         snaps = getattr(self, "list_snapshots", {})
@@ -314,6 +385,15 @@ def extract_readers(ex, events: List[Event], reader_cls_names=("BytesReader",), 
                 f.int_views.append(e.d["result"])
                 if len(e.d["args"]) > 1 and is_const(e.d["args"][1]):
                     f.order = cval(e.d["args"][1])
+        if e.kind == "unpack" and e.d.get("n") == 1:
+            # (x,) = reader.read(1): x is the value of the one byte read
+            f = by_result.get(unsnap(e.d["value"]).uid)
+            if f is not None and is_const(f.size) and cval(f.size) == 1:
+                f.int_views.append(mk("sub", unsnap(e.d["value"]), C(0)))
+        if e.kind == "subscript" and is_const(e.d.get("index")) and cval(e.d["index"]) == 0:
+            f = by_result.get(unsnap(e.d["base"]).uid)
+            if f is not None and is_const(f.size) and cval(f.size) == 1:
+                f.int_views.append(mk("sub", unsnap(e.d["base"]), C(0)))
         if e.kind == "guard":
             # ensure_eof: guard whose condition compares a tell() of reader R with its length
             c = e.d["cond"]
